@@ -232,6 +232,14 @@ func shapeVariants(i int) []docSpec {
 // buildingShapes: well-formed shapes that become part of histories (DID 0), so that "which key may sign the NEXT
 // update" is judged in states whose capability invocation entries are embedded methods.
 func buildingShapes(i int) []docSpec {
+	out := buildingShapesAll(i)
+	if !shapeFull {
+		return out[:2] // quick: the two shapes whose capability invocation entries are embedded methods only
+	}
+	return out
+}
+
+func buildingShapesAll(i int) []docSpec {
 	return []docSpec{
 		// a fresh key embedded in capabilityInvocation is the only capability invocation entry; key i is listed for assertion only
 		shapeDoc(i, "no-capInv-ref", shapeSpec{Rel: "capabilityInvocation", Embed: []methodSpec{{ID: 3, Key: 3}}}),
